@@ -172,6 +172,14 @@ func buildIntrinsics() map[string]intrinsic {
 	}
 	// time
 	m["time.Now"] = func(ex *Exec, fn *ssa.Function, a []Value) Value {
+		if step, ok := ex.extState["concreteClockStep"].(uint64); ok {
+			cur, _ := ex.extState["concreteClock"].(uint64)
+			cur += step
+			ex.extState["concreteClock"] = cur
+			z := ex.zero(fn.Signature.Results().At(0).Type()).(*Struct)
+			z.F[1] = ex.st.Const(64, cur)
+			return z
+		}
 		now := ex.freshInput("clock", 64)
 		st := ex.st
 		// clock readings are non-negative nanoseconds below 2^62 and non-decreasing
@@ -712,6 +720,10 @@ func (ex *Exec) intrinsicByPattern(fn *ssa.Function, name string) intrinsic {
 
 // invokeIntrinsic intercepts interface method calls (logger interface).
 func (ex *Exec) invokeIntrinsic(recv Iface, m *types.Func, args []Value) func() Value {
+	if m.Pkg() != nil && m.Pkg().Path() == "github.com/q191201771/naza/pkg/mock" && m.Name() == "Now" {
+		// nazalog.Clock / hls.Clock: arbitrary non-decreasing instants
+		return func() Value { return ex.intr["time.Now"](ex, ex.timeNowFn(), nil) }
+	}
 	if m.Pkg() != nil && m.Pkg().Path() == "github.com/q191201771/naza/pkg/nazalog" {
 		if sig, ok := m.Type().(*types.Signature); ok {
 			if rcv := sig.Recv(); rcv != nil && strings.HasSuffix(rcv.Type().String(), "nazalog.Logger") {
@@ -843,6 +855,12 @@ func (ex *Exec) vrtIntrinsic(name string) intrinsic {
 	case "Ite":
 		return func(ex *Exec, fn *ssa.Function, a []Value) Value {
 			return st.Ite(a[0].(*Term), a[1].(*Term), a[2].(*Term))
+		}
+	case "ConcreteClock":
+		return func(ex *Exec, fn *ssa.Function, a []Value) Value {
+			ex.extState["concreteClock"] = uint64(ex.concInt(a[0], "vrt.ConcreteClock start"))
+			ex.extState["concreteClockStep"] = uint64(ex.concInt(a[1], "vrt.ConcreteClock step"))
+			return nil
 		}
 	case "Symbolic":
 		return func(ex *Exec, fn *ssa.Function, a []Value) Value { return st.T }
